@@ -31,7 +31,7 @@ def failing_obligations(ctx):
         else:
             continue
         items.append((name, t))
-    body = ["From FwdLib Require Import Bytes Hdr.", "From G12 Require Import Tables Expected Errors Exchange.",
+    body = ["From FwdLib Require Import Bytes Hdr.", "From G12 Require Import Tables Expected Errors Exchange ErrorsProofs.",
             "Open Scope N_scope."]
     body.append("Definition obl : list bool := [%s]." % "; ".join(t for _, t in items))
     body.append("Definition R := Eval vm_compute in obl.\nPrint R.")
